@@ -334,4 +334,8 @@ def run(ctx: Ctx):
     c.check_guard_and_dispatch()
     c.check_closed_forms()
     c.check_shapely_path()
+    # the shape that is buffered is the converted geometry (geometry_to_shapely), built from the coordinates as given
+    from . import c03, c05
+    c05.run_conversion_subset(ctx)
+    c03.run_validation_subset(ctx)
     return EXPLANATION, ASSUMPTIONS
